@@ -27,6 +27,7 @@ type c04Mut struct {
 	A     int    `json:"a"`     // position / amount
 	B     int    `json:"b"`
 	Wire  bool   `json:"wire"` // applied to the protobuf message and mapped back
+	Trust bool   `json:"trust"` // the receiving node trusts the sealing node (funds test exempt - verification is not)
 }
 
 type c04World struct {
@@ -36,12 +37,17 @@ type c04World struct {
 	base  string             // snapshot digest
 }
 
-func c04NewWorld(seed string) (*c04World, error) {
+func c04NewWorld(seed string, trust bool) (*c04World, error) {
 	w, err := sim.NewWorld(sim.Config{Nodes: 1, Users: 3, GenesisC: 1000, Seed: seed})
 	if err != nil {
 		return nil, err
 	}
 	cw := &c04World{w: w}
+	if trust {
+		if err := w.Nodes[0].Book.AddTrustedNode(w.Wallets[w.RogueWallet(0)].Addr); err != nil {
+			return cw, err
+		}
+	}
 	for i := 0; i < 4; i++ {
 		if r := w.ProposeTx(0, w.MakeTx(0, 1+i%3, spice.New(5, 0), 0)); r.Err != nil {
 			return cw, r.Err
@@ -412,29 +418,50 @@ func TestC04(t *testing.T) {
 	st := newStats(t, "C04", "cases = (original valid vertex in {spice, contract, countersigned contract, spice+data}, mutation operator in {flip bit, +-1, truncate, extend, empty, shift bytes across adjacent signed-message fields, swap with another valid vertex's field, re-sign by another wallet, strip receiver signature, corrupt/alias an address}, field, position), at struct level and through the wire mapping; oracle = AddLeaf returns an error and the snapshot digest (live, stored, index, orphan buffer) is unchanged; address clause: AddressToPubKey of a corrupted address errors; non-trivial = mutant differs from the original in >=1 signed field; enumerated tuples distinct by construction, random by fingerprint")
 	sim.Chdir(workDir(t))
 	var cw *c04World
+	cws := map[bool]*c04World{}
 	worlds := 0
+	curTrust := false
 	fresh := func() bool {
-		if cw != nil {
-			cw.w.Close()
+		if old := cws[curTrust]; old != nil {
+			old.w.Close()
 		}
 		worlds++
-		var err error
-		cw, err = c04NewWorld(fmt.Sprintf("c04-%d-%d", shard(), worlds))
+		nw, err := c04NewWorld(fmt.Sprintf("c04-%d-%d", shard(), worlds), curTrust)
 		if err != nil {
 			st.inconclusive("world: " + err.Error())
 			return false
 		}
+		cws[curTrust] = nw
+		cw = nw
 		return true
 	}
-	if !fresh() {
+	use := func(trust bool) bool {
+		curTrust = trust
+		if cws[trust] == nil {
+			return fresh()
+		}
+		cw = cws[trust]
+		return true
+	}
+	if !use(false) {
 		return
 	}
-	defer func() { cw.w.Close() }()
+	defer func() {
+		for _, x := range cws {
+			x.w.Close()
+		}
+	}()
 	exhausted := false
 	run := func(m c04Mut, enumerated bool) bool {
 		if exhausted {
 			st.label("skipped:world-budget-exhausted")
 			return true
+		}
+		if !use(m.Trust) {
+			return true
+		}
+		if m.Trust {
+			st.label("receiver-trusts-sealer")
 		}
 		sig, msg, nt, tainted := c04Judge(cw, m)
 		st.eval(1)
@@ -500,7 +527,11 @@ func TestC04(t *testing.T) {
 					for _, op := range []string{"pm1", "truncate", "extend", "empty", "swap", "resign"} {
 						do(c04Mut{Orig: oi, Op: op, Field: f, A: a})
 						do(c04Mut{Orig: oi, Op: op, Field: f, A: a, Wire: true})
+						do(c04Mut{Orig: oi, Op: op, Field: f, A: a, Trust: true})
 					}
+				}
+				for b := 0; b < 12; b++ {
+					do(c04Mut{Orig: oi, Op: "flip", Field: f, A: b * 37, Trust: true})
 				}
 			}
 			do(c04Mut{Orig: oi, Op: "swap", Field: "tx"})
@@ -576,6 +607,7 @@ func TestC04(t *testing.T) {
 				A:     rapid.IntRange(0, 4000).Draw(rt, "a"),
 				B:     rapid.IntRange(0, 2).Draw(rt, "b"),
 				Wire:  rapid.Bool().Draw(rt, "wire"),
+				Trust: rapid.IntRange(0, 3).Draw(rt, "trust") == 0,
 			}
 			if !run(m, false) {
 				rt.Fatalf("C04 violated: %+v", m)
@@ -584,6 +616,7 @@ func TestC04(t *testing.T) {
 		})
 	})
 	// sanity: the untouched originals are admitted (otherwise every rejection above is vacuous)
+	use(false)
 	for i, o := range cw.origs {
 		if exhausted {
 			break
@@ -615,7 +648,7 @@ func TestReplayC04(t *testing.T) {
 	var m c04Mut
 	loadReplay(t, &m)
 	sim.Chdir(t.TempDir())
-	cw, err := c04NewWorld("c04-replay")
+	cw, err := c04NewWorld("c04-replay", m.Trust)
 	if err != nil {
 		t.Skipf("world: %v", err)
 	}
